@@ -134,7 +134,7 @@ def gen_ext(rng, tier, meta):
     ops = P + ["m %s %s" % (hx(x1), hx(x2)), "M %s %s" % (hx(x1), hx(x2)), "gm", "gM"] + ["I %s" % hx(s) for s in samples]
     rq = "%s %d %s" % (head(xs, ys, xd, fd), len(ops), " ".join(ops))
     meta[rq] = dict(fam="ext", np=len(P), nin=nin, allknots=allknots, p=p, n=len(xs), span=len(inside),
-                    ymax=max(abs(y) for y in ys2), zone=(x1 < xs2[0] or x2 > xs2[-1]))
+                    ymax=max(abs(y) for y in ys2), zone=(x1 < xs2[0] or x2 > xs2[-1]), xs=xs2, ys=ys2)
     return rq
 
 
@@ -153,8 +153,12 @@ def gen_add(rng, tier, meta):
         pts.append(xs2[rng.randint(0, n - 1)] if c < 0.3 else (T.outside_ok(rng, xs2) if c < 0.36 else T.point(rng, xs2, rng.randint(0, n - 2))))
     a, b, c_ = pts
     ops = P + ["G %s %s" % (hx(u), hx(v)) for u, v in ((a, b), (b, c_), (a, c_), (b, a), (c_, b), (c_, a), (a, a))]
+    q = None
+    if rng.random() < 0.6:   # a factor applied BETWEEN queries: the same integrals must scale by exactly q
+        q = rng.choice([-1.0, 2.0, 0.5, -3.0, -0.25, 1e-10, -1e10])
+        ops += ["X %s" % hx(q)] + ["G %s %s" % (hx(u), hx(v)) for u, v in ((a, b), (b, c_), (a, c_))]
     rq = "%s %d %s" % (head(xs, ys, xd, fd), len(ops), " ".join(ops))
-    meta[rq] = dict(fam="add", np=len(P), p=p, n=n, span=0)
+    meta[rq] = dict(fam="add", np=len(P), p=p, n=n, span=0, xs=xs2, ys=ys2, q=q)
     return rq
 
 
@@ -176,7 +180,7 @@ def gen_fd(rng, tier, meta):
     a = T.point(rng, xs2, k + rng.choice([0, 0, -1, -2, -5, 3]))
     ops = P + ["G %s %s" % (hx(a), hx(b)), "G %s %s" % (hx(a), hx(b2)), "I %s" % hx(b), "I %s" % hx(m), "I %s" % hx(b2)]
     rq = "%s %d %s" % (head(xs, ys, xd, fd), len(ops), " ".join(ops))
-    meta[rq] = dict(fam="fd", np=len(P), p=p, n=n, span=0)
+    meta[rq] = dict(fam="fd", np=len(P), p=p, n=n, span=0, xs=xs2, ys=ys2)
     return rq
 
 
@@ -339,6 +343,63 @@ def model_values(tm):
     return out
 
 
+
+# ------------------------------------------------------------------------------------------------
+# scales computed from the request alone (mirror of LpModel/C08.lean: scaleInterp / scaleInteg), used by
+# the oracle when no model answer is available (broken Lean build -> oracle_only).  Sums of non-negative
+# terms in double arithmetic (relative error ~1e-13), doubled for safety.
+# ------------------------------------------------------------------------------------------------
+
+class PyScale:
+    def __init__(self, xs, ys, p):
+        self.x, self.y, self.p, self.n = xs, ys, abs(p), len(xs)
+        self.h = [xs[i + 1] - xs[i] for i in range(self.n - 1)]
+        self.s = [(abs(ys[i]) + abs(ys[i + 1])) / self.h[i] for i in range(self.n - 1)]
+
+    def dy(self, i):
+        n, s = self.n, self.s
+        if i == 0:
+            return 2 * s[0] + s[1]
+        if i == n - 1:
+            return 2 * s[n - 2] + s[n - 3]
+        return s[i - 1] + s[i]
+
+    def coef(self, j):
+        h, s = self.h[j], self.s[j]
+        return ((self.dy(j) + self.dy(j + 1) + 2 * s) / (h * h), (3 * s + 2 * self.dy(j) + self.dy(j + 1)) / h, self.dy(j), abs(self.y[j]))
+
+    def index(self, v):
+        import bisect
+        if v < self.x[0]:
+            return 0
+        return min(max(bisect.bisect_right(self.x, v) - 1, 0), self.n - 2)
+
+    def interp(self, v):
+        j = self.index(v)
+        a, b, c, d = self.coef(j)
+        t = abs(v - self.x[j])
+        return 2 * self.p * (a * t ** 3 + b * t ** 2 + c * t + d)
+
+    def stem(self, j, X):
+        a, b, c, d = self.coef(j)
+        t = abs(X - self.x[j])
+        return a / 4 * t ** 4 + b / 3 * t ** 3 + c / 2 * t ** 2 + d * abs(X)
+
+    def integ(self, v1, v2):
+        lo, hi = (v2, v1) if v1 > v2 else (v1, v2)
+        i1, i2 = self.index(lo), self.index(hi)
+        tot = 0.0
+        for j in range(i1, i2 + 1):
+            xl = lo if j == i1 else self.x[j]
+            xr = hi if j == i2 else self.x[j + 1]
+            tot += self.stem(j, xr) + self.stem(j, xl)
+        return 2 * self.p * tot
+
+
+def _finite(vals):
+    return all(v is not None and not math.isnan(v) and not math.isinf(v) for v in vals)
+
+
 def sgn_class(p):
     return ("neg" if p < 0 else "pos") + ("-tiny" if abs(p) < 1e-8 else "-huge" if abs(p) > 1e8 else "")
 
@@ -415,11 +476,6 @@ def oracle(meta, ops, vi, vm, ctx):
     out = []
     np_ = meta["np"]
 
-    def sc(i, crude):
-        if vm is not None and vm[i] is not None and not isinstance(vm[i], int):
-            return vm[i][1]
-        return Fraction(crude)
-
     if fam == "ext":
         m, M, gm, gM = vi[np_:np_ + 4]
         S = vi[np_ + 4:]
@@ -427,7 +483,13 @@ def oracle(meta, ops, vi, vm, ctx):
         if any(v is None or math.isnan(v) for v in [m, M, gm, gM] + S):
             return [fail("prop", "non-finite extremum or sample", "")]
         ymax = abs(meta["p"]) * meta["ymax"]
-        tol = float(TOL_ORACLE) * max(abs(m), abs(M), max(abs(s) for s in S[:nin]))
+        # rounding of an evaluation is relative to the terms of the cubic, not to its value
+        if vm is not None:
+            rs = max(float(v[1]) for v in vm[np_ + 4:np_ + 4 + nin])
+        else:
+            ps = PyScale(meta["xs"], meta["ys"], meta["p"])
+            rs = max(ps.interp(fl(o[1])) for o in ops[np_ + 4:np_ + 4 + nin])
+        tol = float(TOL_ORACLE) * max(abs(m), abs(M), max(abs(s) for s in S[:nin])) + 64 * 2.0 ** -53 * rs
         tolg = float(TOL_ORACLE) * max(abs(gm), abs(gM), ymax)
         lo, hi = min(S[:nin]), max(S[:nin])
         if lo < m - tol:
@@ -462,29 +524,53 @@ def oracle(meta, ops, vi, vm, ctx):
         ctx["nontrivial"].add(("oracle.ext2", sgn_class(meta["p"])))
     elif fam == "add":
         ab, bc, ac, ba, cb, ca, aa = vi[np_:np_ + 7]
+        if not _finite([ab, bc, ac, ba, cb, ca, aa]):
+            return [fail("prop", "Integrate returned a non-finite value on a finite table", "")]
         for u, v, nm in ((ab, ba, "a,b"), (bc, cb, "b,c"), (ac, ca, "a,c")):
             if not (u == -v):
                 out.append(fail("prop", "Integrate is not antisymmetric under exchange of its limits", "I(%s)=%r, reversed %r" % (nm, u, v)))
         if aa != 0:
             out.append(fail("prop", "Integrate(a,a) is not zero", repr(aa)))
-        crude = abs(ab) + abs(bc) + abs(ac)
-        scale = sc(np_, crude) + sc(np_ + 1, crude) + sc(np_ + 2, crude)
-        if vm is None:
-            scale = scale * 2 ** 20
-        if abs(Fraction(ab) + Fraction(bc) - Fraction(ac)) > 4 * K_B * EPS * scale:
+        lims = [(fl(ops[np_ + k][1]), fl(ops[np_ + k][2])) for k in range(3)]
+        if vm is not None:
+            scs = [vm[np_ + k][1] for k in range(3)]
+        else:
+            ps = PyScale(meta["xs"], meta["ys"], meta["p"])
+            scs = [Fraction(ps.integ(u, v)) for u, v in lims]
+        scale = scs[0] + scs[1] + scs[2]
+        if abs(Fraction(ab) + Fraction(bc) - Fraction(ac)) > 4 * K_B * EPS * scale + ATOL:
             out.append(fail("prop", "Integrate is not additive over adjacent intervals", "I(a,b)+I(b,c)-I(a,c) = %r" % (ab + bc - ac)))
-        ctx["nontrivial"].add(("oracle.add", sgn_class(meta["p"])))
+        q = meta.get("q")
+        if q is not None and len(vi) >= np_ + 11:
+            ab2, bc2, ac2 = vi[np_ + 8:np_ + 11]
+            if not _finite([ab2, bc2, ac2]):
+                return out + [fail("prop", "Integrate returned a non-finite value on a finite table", "")]
+            qa = abs(Fraction(q))
+            for k, (u1, u2) in enumerate(((ab, ab2), (bc, bc2), (ac, ac2))):
+                if abs(Fraction(u2) - Fraction(q) * Fraction(u1)) > 8 * K_B * EPS * qa * scs[k] + ATOL * max(qa, 1):
+                    out.append(fail("prop", "Integrate does not scale by the factor of a Multiply applied between queries",
+                                    "before %r, Multiply(%r), after %r" % (u1, q, u2)))
+                    break
+            if abs(Fraction(ab2) + Fraction(bc2) - Fraction(ac2)) > 4 * K_B * EPS * qa * scale + ATOL * max(qa, 1):
+                out.append(fail("prop", "Integrate is not additive over adjacent intervals (after Multiply)", "%r" % (ab2 + bc2 - ac2)))
+        ctx["nontrivial"].add(("oracle.add", sgn_class(meta["p"]), q is not None))
     elif fam == "fd":
         g1, g2, pb, pm, pb2 = vi[np_:np_ + 5]
-        b = Fraction(fl(ops[np_][2])); b2 = Fraction(fl(ops[np_ + 1][2]))
+        if not _finite([g1, g2, pb, pm, pb2]):
+            return [fail("prop", "Integrate/Interpolate returned a non-finite value on a finite table", "")]
+        a0 = fl(ops[np_][1])
+        bf, b2f, mf = fl(ops[np_][2]), fl(ops[np_ + 1][2]), fl(ops[np_ + 3][1])
+        b = Fraction(bf); b2 = Fraction(b2f)
         d = b2 - b
         lhs = Fraction(g2) - Fraction(g1)
         rhs = d * (Fraction(pb) + 4 * Fraction(pm) + Fraction(pb2)) / 6
-        crude = abs(g1) + abs(g2)
-        scale = sc(np_, crude) + sc(np_ + 1, crude) + d * (sc(np_ + 2, abs(pb)) + 4 * sc(np_ + 3, abs(pm)) + sc(np_ + 4, abs(pb2)))
-        if vm is None:
-            scale = scale * 2 ** 20
-        if abs(lhs - rhs) > 4 * K_B * EPS * scale:
+        if vm is not None:
+            scale = vm[np_][1] + vm[np_ + 1][1] + d * (vm[np_ + 2][1] + 4 * vm[np_ + 3][1] + vm[np_ + 4][1])
+        else:
+            ps = PyScale(meta["xs"], meta["ys"], meta["p"])
+            scale = Fraction(ps.integ(a0, bf)) + Fraction(ps.integ(a0, b2f)) + d * (
+                Fraction(ps.interp(bf)) + 4 * Fraction(ps.interp(mf)) + Fraction(ps.interp(b2f)))
+        if abs(lhs - rhs) > 4 * K_B * EPS * scale + ATOL:
             out.append(fail("prop", "difference quotient of Integrate w.r.t. its upper limit is not the Simpson mean of Interpolate (exact on a cubic piece)",
                             "I(a,b+d)-I(a,b) = %r, d*(P+4P+P)/6 = %r" % (float(lhs), float(rhs))))
         ctx["nontrivial"].add(("oracle.fd", sgn_class(meta["p"]), d == 0))
